@@ -85,6 +85,10 @@ Definition dense_matvec (A : ttm R) (X : dense R) : dense R :=
   mkD (firstn nb (dshape X) ++ shapeM A)
       (fun idx => dmv_loop A (fun _ ns => dget X (firstn nb idx ++ ns)) (skipn nb idx)).
 
+(* LinearLayerTT.forward (torchtt/nn.py): the same tensordot loop over the layer's cores, then + bias
+   (bias broadcast over the leading batch dimensions) *)
+Definition forward (W : ttm R) (bias X : dense R) : dense R := dmap2 radd (dense_matvec W X) bias.
+
 (* eye(shape): rank-1 identity cores *)
 Definition eye_core (n : nat) : core4 R := mk4 1 n n 1 (fun _ i j _ => delta i j).
 Definition eye_ttm (ns : list nat) : ttm R := map eye_core ns.
